@@ -19,8 +19,8 @@ using vh::Toks; using vh::Out;
 //   2 quadratic   f(z)_i = z_i + z_i^2 / 4
 //   3 coupled     f(z)_i = z_i * cos(z_{i+1 mod m}) + z_i
 struct HModel : public AdditiveMeasurementModel {
-    HModel(int kind, const MatrixXd& H, const VectorXd& h0, const VectorXd& y, const MatrixXd& R, bool failM, bool failP, bool failI)
-        : kind_(kind), H_(H), h0_(h0), y_(y), R_(R), failM_(failM), failP_(failP), failI_(failI) {}
+    HModel(int kind, long nc, const MatrixXd& H, const VectorXd& h0, const VectorXd& y, const MatrixXd& R, bool failM, bool failP, bool failI)
+        : kind_(kind), nc_(nc), H_(H), h0_(h0), y_(y), R_(R), failM_(failM), failP_(failP), failI_(failI) {}
     bool freeze(const Data&) override { return true; }
     std::pair<bool, Data> measure(const Data&) const override { MatrixXd y = y_; return std::make_pair(!failM_, Data(y)); }
     std::pair<bool, Data> predictedMeasure(const Ref<const MatrixXd>& x) const override {
@@ -46,9 +46,9 @@ struct HModel : public AdditiveMeasurementModel {
         return std::make_pair(!failI_, Data(inn));
     }
     std::pair<bool, MatrixXd> getNoiseCovarianceMatrix() const override { return std::make_pair(true, R_); }
-    VectorDescription getInputDescription() const override { return VectorDescription(H_.cols(), 0, y_.size()); }
+    VectorDescription getInputDescription() const override { return VectorDescription(H_.cols() - nc_, nc_, y_.size()); }
     VectorDescription getMeasurementDescription() const override { return VectorDescription(y_.size()); }
-    int kind_; MatrixXd H_; VectorXd h0_, y_; MatrixXd R_; bool failM_, failP_, failI_;
+    int kind_; long nc_; MatrixXd H_; VectorXd h0_, y_; MatrixXd R_; bool failM_, failP_, failI_;
     mutable MatrixXd X_, Y_;     // what the correction asked for and what it was told
 };
 
@@ -58,22 +58,23 @@ static void outLik(Out& o, std::pair<bool, VectorXd> l) {
 
 // One correction object of each kind, driven through one or several successive correct() + getLikelihood()
 // calls (component count, measurement, belief and failing calls vary from call to call).
-//   sukf  n msz bs red k alpha beta kappa hkind failM failP failI H h0 y R means covs outw
-//   sukfs n msz bs red alpha beta kappa hkind H h0 R ncalls { k failM failP failI rscale y means covs outw }*
+// The state has n rows, the last nc of them circular (Euler angles).
+//   sukf  n nc msz bs red k alpha beta kappa hkind failM failP failI H h0 y R means covs outw
+//   sukfs n nc msz bs red alpha beta kappa hkind H h0 R ncalls { k failM failP failI rscale y means covs outw }*
 // (the noise covariance the model reports in a call is rscale * R: time-varying noise)
 struct Call { long k; bool failM, failP, failI; double rscale; VectorXd y; MatrixXd means, covs; VectorXd outw; };
 
-static std::string runCalls(long n, long msz, long bs, bool red, double alpha, double beta, double kappa, int kind,
+static std::string runCalls(long n, long nc, long msz, long bs, bool red, double alpha, double beta, double kappa, int kind,
                             const MatrixXd& H, const VectorXd& h0, const MatrixXd& R, const std::vector<Call>& calls) {
     const bool divides = (msz % bs) == 0;
-    HModel* ms = new HModel(kind, H, h0, VectorXd::Zero(msz), R, false, false, false);
+    HModel* ms = new HModel(kind, nc, H, h0, VectorXd::Zero(msz), R, false, false, false);
     SUKFCorrection sukfc(std::unique_ptr<AdditiveMeasurementModel>(ms), alpha, beta, kappa, (std::size_t)bs, red);
     // the standard additive correction is given the full covariance the encoding stands for
     HModel* mu = nullptr; std::unique_ptr<UKFCorrection> ukfc;
     MatrixXd Rfull = R;
     if (divides) {
         if (red) { Rfull = MatrixXd::Zero(msz, msz); for (long i = 0; i < msz / bs; ++i) Rfull.block(bs * i, bs * i, bs, bs) = R; }
-        mu = new HModel(kind, H, h0, VectorXd::Zero(msz), Rfull, false, false, false);
+        mu = new HModel(kind, nc, H, h0, VectorXd::Zero(msz), Rfull, false, false, false);
         ukfc.reset(new UKFCorrection(std::unique_ptr<AdditiveMeasurementModel>(mu), alpha, beta, kappa));
     }
     sigma_point::UTWeight w((std::size_t)n, alpha, beta, kappa);
@@ -81,7 +82,7 @@ static std::string runCalls(long n, long msz, long bs, bool red, double alpha, d
     bool firstCall = true;
     for (const Call& c : calls) {
         if (!firstCall) o.s("|");
-        GaussianMixture pred(c.k, n), corrS(c.k, n), corrU(c.k, n);
+        GaussianMixture pred(c.k, n - nc, nc), corrS(c.k, n - nc, nc), corrU(c.k, n - nc, nc);
         pred.mean() = c.means; pred.covariance() = c.covs;
         for (GaussianMixture* g : { &corrS, &corrU }) { g->mean().setConstant(12345.0); g->covariance().setConstant(-54321.0); g->weight() = c.outw; }
         MatrixXd m0 = pred.mean(), c0 = pred.covariance(), w0 = pred.weight();
@@ -92,13 +93,12 @@ static std::string runCalls(long n, long msz, long bs, bool red, double alpha, d
         std::pair<bool, VectorXd> likS = sukfc.getLikelihood();
         o.s("S"); o.m(corrS.mean()); o.m(corrS.covariance()); o.m(corrS.weight()); outLik(o, likS);
         o.s(likS0.first ? "prelik" : "noprelik");
-        if (divides) {
+        // The standard correction is the oracle for successful steps only: it is not driven through calls
+        // with a failing model answer (what it does then is C12's subject, not C05's).
+        const bool faulty = c.failM || c.failP || c.failI;
+        if (divides && !faulty) {
             ukfc->correct(pred, corrU);
-            // After a failing call the likelihood of the standard correction is not queried: its stored
-            // innovations are stale while predicted_meas_ has been reset (size assertion; outside C05).
-            const bool faulty = c.failM || c.failP || c.failI;
-            o.s("U"); o.m(corrU.mean()); o.m(corrU.covariance());
-            outLik(o, faulty ? std::make_pair(false, VectorXd()) : ukfc->getLikelihood());
+            o.s("U"); o.m(corrU.mean()); o.m(corrU.covariance()); outLik(o, ukfc->getLikelihood());
         } else {
             o.s("Unone");
         }
@@ -119,7 +119,7 @@ static Call readCall(Toks& t, long n, long msz) {
 }
 
 static std::string sukf(Toks& t) {
-    long n = t.nat(), msz = t.nat(), bs = t.nat(); bool red = t.flag(); long k = t.nat();
+    long n = t.nat(), nc = t.nat(), msz = t.nat(), bs = t.nat(); bool red = t.flag(); long k = t.nat();
     double alpha = t.dbl(), beta = t.dbl(), kappa = t.dbl();
     int kind = (int)t.nat(); bool failM = t.flag(), failP = t.flag(), failI = t.flag();
     MatrixXd H = t.mat(msz, n); VectorXd h0 = t.vec(msz), y = t.vec(msz);
@@ -127,11 +127,11 @@ static std::string sukf(Toks& t) {
     Call c; c.k = k; c.failM = failM; c.failP = failP; c.failI = failI; c.rscale = 1.0; c.y = y;
     c.means = t.mat(n, k); c.covs = t.mat(n, n * k); c.outw = t.vec(k);
     t.done();
-    return runCalls(n, msz, bs, red, alpha, beta, kappa, kind, H, h0, R, { c });
+    return runCalls(n, nc, msz, bs, red, alpha, beta, kappa, kind, H, h0, R, { c });
 }
 
 static std::string sukfs(Toks& t) {
-    long n = t.nat(), msz = t.nat(), bs = t.nat(); bool red = t.flag();
+    long n = t.nat(), nc = t.nat(), msz = t.nat(), bs = t.nat(); bool red = t.flag();
     double alpha = t.dbl(), beta = t.dbl(), kappa = t.dbl();
     int kind = (int)t.nat();
     MatrixXd H = t.mat(msz, n); VectorXd h0 = t.vec(msz);
@@ -140,7 +140,7 @@ static std::string sukfs(Toks& t) {
     std::vector<Call> calls;
     for (long i = 0; i < ncalls; ++i) calls.push_back(readCall(t, n, msz));
     t.done();
-    return runCalls(n, msz, bs, red, alpha, beta, kappa, kind, H, h0, R, calls);
+    return runCalls(n, nc, msz, bs, red, alpha, beta, kappa, kind, H, h0, R, calls);
 }
 
 int main() {
